@@ -24,6 +24,8 @@ the moment it was issued, or has become pending since, or is terminated) and
 `C02_helper_abort_sound` (a helper that gives up because the target is active with a different tag
 has seen the target go through pending since the observation it was created from).  The one
 unclaimed corner: a helper aborts also when only `state_ex` differs (same tag); see DESIGN.md.
+(Follow-up C02x: that corner is closed, and the pieces are composed into the end-to-end theorem
+`C02_no_lost_wakeup`, in `Props/C02x.lean`.)
 -/
 namespace PikaVerif.C02
 open PikaVerif PikaVerif.Sched
